@@ -223,7 +223,7 @@ func feparse(c *Ctx) {
 	r := c.R
 	log.SetOutput(io.Discard)
 	for cse := 0; cse < c.N; cse++ {
-		g := &proj.Gen{R: r, BadSigs: true, Imports: true, TagShapes: true, Collisions: c.Prop == "C07" || r.Chance(1, 5), Platform: r.Chance(1, 3)}
+		g := &proj.Gen{R: r, BadSigs: true, Imports: true, TagShapes: true, Collisions: c.Prop == "C07" || r.Chance(1, 5), Platform: r.Chance(1, 3), EscapedAliases: r.Chance(1, 3)}
 		if c.Prop == "C18" {
 			g.BadSigs = false
 		}
